@@ -4,6 +4,7 @@ package dsim
 
 import (
 	"fmt"
+	"os"
 	"runtime"
 	"strings"
 	"time"
@@ -344,3 +345,18 @@ func (c *Client) Close() {
 }
 
 var _ = time.Now
+
+// harnessEnvCheck aborts the worker (exit 2: harness trouble, never a violation) when an error comes
+// from the sandbox rather than from the system under test.
+func harnessEnvCheck(err error) {
+	if err == nil {
+		return
+	}
+	msg := err.Error()
+	for _, bad := range []string{"too many open files", "no space left on device", "cannot allocate memory"} {
+		if strings.Contains(msg, bad) {
+			fmt.Fprintf(os.Stderr, "HARNESS: environment error: %v\n", err)
+			os.Exit(2)
+		}
+	}
+}
